@@ -115,9 +115,13 @@ type Engine struct {
 	lockCache map[*ssa.Function]*lockInfo
 	sites     map[*ssa.Function][]ssa.CallInstruction
 	escaped   map[*ssa.Function]bool
+	entryOn   map[*ssa.Function]factSet
 }
 
 type fnCtx struct {
+	entry     factSet
+	entryDone bool
+	entryBusy bool
 	fn     *ssa.Function
 	hold   map[*ssa.BasicBlock]factSet
 	busy   map[*ssa.BasicBlock]bool
@@ -393,6 +397,11 @@ func (e *Engine) holding(b *ssa.BasicBlock) factSet {
 				fs.add(e.condFacts(iff.Cond, i == 0).list()...)
 			}
 		}
+	}
+	// what every caller of an unexported function has established about its arguments holds on entry
+	// (switched on per function by the audit, after the function's own guards did not suffice)
+	if ef, ok := e.entryOn[b.Parent()]; ok {
+		fs.add(ef.list()...)
 	}
 	// a block with exactly one feasible predecessor inherits the facts of that edge
 	// (go/ssa keeps `if true` branches: their dead edges distort the dominator tree)
@@ -1670,4 +1679,108 @@ func condsOf(b *ssa.BasicBlock, v0 ssa.Value, pol0 bool) []condAtom {
 		decompose(v0, pol0, 0)
 	}
 	return out
+}
+
+// entryFacts: the facts about its parameters that hold whenever an unexported package-level function whose
+// address is never taken is entered: the intersection, over all its call sites, of the facts that hold at the
+// site about the argument values (access paths rooted in an argument are re-rooted in the parameter).
+func (e *Engine) entryFacts(fn *ssa.Function) factSet {
+	c := e.ctx(fn)
+	if c.entryDone {
+		return c.entry
+	}
+	if c.entryBusy {
+		return factSet{}
+	}
+	c.entryBusy = true
+	defer func() { c.entryBusy = false }()
+	out := factSet{}
+	if fn.Parent() != nil || fn.Object() == nil || fn.Object().Exported() || fn.Signature.Recv() != nil || !strings.HasPrefix(fnPkgPath(fn), modPath) || len(fn.Params) == 0 {
+		c.entry, c.entryDone = out, true
+		return out
+	}
+	sites := e.callSites(fn)
+	if len(sites) == 0 || len(sites) > 8 {
+		c.entry, c.entryDone = out, true
+		return out
+	}
+	complete := true
+	var acc factSet
+	for _, site := range sites {
+		if _, isCall := site.(*ssa.Call); !isCall {
+			acc = factSet{}
+			break
+		}
+		if e.ctx(site.Parent()).entryBusy {
+			complete = false
+		}
+		args := site.Common().Args
+		argKeys := make([]Key, len(args))
+		for i, a := range args {
+			argKeys[i] = e.keyOf(a)
+		}
+		rk := func(k Key) (Key, bool) {
+			for i, ak := range argKeys {
+				if i < len(fn.Params) && ak.valid() && k.Root == ak.Root && k.Glob == ak.Glob && strings.HasPrefix(k.Path, ak.Path) {
+					return Key{Root: fn.Params[i], Path: k.Path[len(ak.Path):]}, true
+				}
+			}
+			return k, false
+		}
+		rt := func(t Term) (Term, bool) {
+			if t.Kind == 0 {
+				return t, true
+			}
+			k, ok := rk(t.K)
+			return Term{Kind: t.Kind, K: k}, ok
+		}
+		here := factSet{}
+		for _, f := range e.holding(site.Block()).list() {
+			var ok, ok2 bool
+			switch f.Kind {
+			case "type", "nottype", "nonnil", "nil":
+				f.K, ok = rk(f.K)
+				ok2 = true
+			case "even":
+				f.A, ok = rt(f.A)
+				ok2 = true
+			default:
+				f.A, ok = rt(f.A)
+				f.B, ok2 = rt(f.B)
+			}
+			if ok && ok2 {
+				here.add(f)
+			}
+		}
+		if acc == nil {
+			acc = here
+		} else {
+			acc = intersect(acc, here)
+		}
+	}
+	if acc != nil {
+		out = acc
+	}
+	if complete {
+		c.entry, c.entryDone = out, true
+	}
+	return out
+}
+
+// enableEntryFacts switches the call-site facts of fn on; reports whether that adds anything.
+func (e *Engine) enableEntryFacts(fn *ssa.Function) bool {
+	if _, done := e.entryOn[fn]; done {
+		return false
+	}
+	if e.entryOn == nil {
+		e.entryOn = map[*ssa.Function]factSet{}
+	}
+	ef := e.entryFacts(fn)
+	if len(ef) == 0 {
+		return false
+	}
+	e.entryOn[fn] = ef
+	c := e.ctx(fn)
+	c.hold = map[*ssa.BasicBlock]factSet{}
+	return true
 }
